@@ -1,11 +1,11 @@
 #!/bin/bash
 # seed_suite.sh <name> : run the repository's pinned baseline suite with seeded/<name>/patch.diff applied (scratch worktree), record the outcome
-NAME=$1
+NAME=$1; BASE=${2:-HEAD}
 D=/verif/seeded/$NAME
 WT=/tmp/suite-$NAME
 [ -f $D/suite.json ] && exit 0
 git -C /repo worktree remove --force $WT 2>/dev/null
-git -C /repo worktree add -q --detach $WT HEAD || exit 2
+git -C /repo worktree add -q --detach $WT $BASE || exit 2
 git -C $WT apply $D/patch.diff || { echo '{"error": "patch does not apply"}' > $D/suite.json; git -C /repo worktree remove --force $WT; exit 1; }
 S=$(date +%s)
 OMP_NUM_THREADS=3 /venv/bin/python /verif/py/tools/baseline.py $WT /var/tmp/suite-$NAME.xml > /var/tmp/suite-$NAME.out 2>&1
@@ -14,7 +14,7 @@ python3 - <<PY
 import json,re
 out=open('/var/tmp/suite-$NAME.out').read()
 m=re.search(r'stable_pass total (\d+) passing now (\d+)', out)
-json.dump({'cmd': 'py/tools/baseline.py <scratch worktree of /repo HEAD + patch.diff>', 'stable_pass_total': int(m.group(1)) if m else None, 'passing': int(m.group(2)) if m else None,
+json.dump({'cmd': 'py/tools/baseline.py <scratch worktree of /repo at $BASE + patch.diff>', 'stable_pass_total': int(m.group(1)) if m else None, 'passing': int(m.group(2)) if m else None,
            'not_passing': re.findall(r'NOT PASSING: (\S+)', out)[:20], 'exit': $RC, 'seconds': $(date +%s) - $S}, open('$D/suite.json','w'), indent=1)
 PY
 git -C /repo worktree remove --force $WT
